@@ -38,7 +38,31 @@ def streams(tier, rng, fs, profile):
     exact = [unlossy(op) for op in ops]
     # pipe-lossy: the lossy inputs against the algorithmic pipeline model with the lossy flag (Props/C19Final.lean is about it)
     pipe = ["apf" + o[2:] for o in ops if o.startswith("pf ")]
-    return [("lossy", ops), ("exact", exact), ("pipe-lossy", pipe)]
+    return [("lossy", ops), ("exact", exact), ("pipe-lossy", pipe), ("lossy-overflow-tie", overflow_tie_ops(fs))]
+
+
+def overflow_tie_ops(fs):
+    """the exact tie between the largest finite float and 2^emax, written out in full: correctly rounded it is +inf (ties
+    to even), under `lossy` only the first 19 digits are rounded (recorded finding C19-lossy-overflow-tie)"""
+    ops = []
+    fmt = gens.fmt_hex(gens.pack(10))
+    for ty, tie in (("f64", 2 ** 1024 - 2 ** 970), ("f32", 2 ** 128 - 2 ** 103)):
+        for v in (tie, tie + 1, tie - 1):
+            for s in (str(v), str(v) + ".0", str(v) + "e0", "-" + str(v)):
+                for lossy in (True, False):
+                    ops.append(gens.pf_op(ty, fmt, s, 10, lossy=lossy))
+    return ops
+
+
+def classify(v):
+    """call-site class of the one recorded C19 finding: the correct result is infinite, the lossy one the largest finite float"""
+    it, st = v.get("implementation", "").split(" "), v.get("specification", "").split(" ")
+    if v.get("op", "").startswith("pf ") and len(it) > 1 and len(st) > 1 and it[0] == "ok" and st[0] == "ok":
+        pair = (it[1].lstrip("-"), st[1].lstrip("-"))
+        if pair in (("7fefffffffffffff", "7ff0000000000000"), ("ffefffffffffffff", "fff0000000000000"),
+                    ("7f7fffff", "7f800000"), ("ff7fffff", "ff800000")):
+            return "lossy-overflow-tie"
+    return None
 
 
 def unlossy(op):
